@@ -80,6 +80,7 @@ func (fr *Frame) instr(in ssa.Instruction, st *State, reach string) (stop bool, 
 				v = fr.havocVal(x.Val.Type(), "escaped", st)
 			}
 		}
+		fr.ghostAnchorsPre("store "+storeDesc(x), st, reach, in)
 		g.storePtr(st, addr, el, v)
 		fr.ghostAnchors("store "+storeDesc(x), st, reach, in, Val{})
 	case *ssa.Phi:
@@ -146,6 +147,7 @@ func (fr *Frame) instr(in ssa.Instruction, st *State, reach string) (stop bool, 
 	case *ssa.Lookup:
 		fr.vals[x] = fr.lookupOp(x, st, reach)
 	case *ssa.MapUpdate:
+		fr.ghostAnchorsPre("mapupdate", st, reach, in)
 		fr.mapUpdate(x, st, reach)
 		fr.ghostAnchors("mapupdate", st, reach, in, Val{})
 	case *ssa.Range:
